@@ -491,6 +491,20 @@ static void f15_render (uint64_t idx) {
 static int f15_ninputs (uint64_t idx) { return 2; }
 static pinput f15_input (uint64_t idx, int i) { pinput p = {i ? 1000 : 0, 0, -1, 0, 0}; return p; }
 
+/* =============================== F16: constant as the FIRST operand, result extended, straight-line and inside a loop =============================== */
+static const char *F16_EXT[] = {"ext8", "ext16", "ext32", "uext8", "uext16", "uext32"};
+static uint64_t f16_count (int th) { return 2ull * 6 * NF15O * NF15K; }
+static void f16_render (uint64_t idx) {
+  int k = idx % NF15K; idx /= NF15K; int op = idx % NF15O; idx /= NF15O; int ex = idx % 6; int loop = (int) (idx / 6);
+  begin_func ("i64:i, i64:s"); S ("  mov s, 0\n  mov i, 0\n");
+  if (loop) S ("L1:\n");
+  S ("  %s r0, %s, a\n  %s r1, r0\n  add s, s, r1\n", F15_OP[op], F15_K[k], F16_EXT[ex]);
+  if (loop) S ("  add i, i, 1\n  blt L1, i, 3\n");
+  S ("  ret s\n"); end_func ();
+}
+static int f16_ninputs (uint64_t idx) { return 6; }
+static pinput f16_input (uint64_t idx, int i) { static const int64_t av[] = {0, 7, -1, 0x80, 0xffff8000ll, 0x123456789all}; pinput p = {av[i], 0, -1, 0, 0}; return p; }
+
 int progfam_thorough;
 static const family FAMILIES[] = {
   {"F1a-ext-chains", f1a_count, f1a_render, in_intgrid_n, in_intgrid},
@@ -512,6 +526,7 @@ static const family FAMILIES[] = {
   {"F13-loop-carried-copies", f13_count, f13_render, f13_ninputs, f13_input},
   {"F14-structured-loops", f14_count, f14_render, f13_ninputs, f13_input},
   {"F15-constant-operands", f15_count, f15_render, f15_ninputs, f15_input},
+  {"F16-constant-first-extended", f16_count, f16_render, f16_ninputs, f16_input},
   /* thorough only, 1.5e8 programs: kept last so that a deadline cuts this family and no other */
   {"F3t-cfg3-full", f3t_count, f3t_render, f3_ninputs, f3_input},
 };
